@@ -59,11 +59,15 @@ func (u *Unit) ghostMonotone(st *State, name string, idx Term) {
 		n := Select(gs.new, idx, gs.sort, u.distinctAddr)
 		switch name {
 		case "ch_sent", "ch_recv":
-			st.Assume(Ge(n, o))
+			u.Axiom(Ge(n, o))
 		case "ch_closed":
-			st.Assume(Implies(o, n))
+			u.Axiom(Implies(o, n))
+			for _, oc := range st.OwnedClose {
+				// only this unit closes an owned channel
+				u.Axiom(Implies(Eq(oc, idx), Eq(o, n)))
+			}
 		case "ctx_err":
-			st.Assume(Implies(Neq(o, NilV), Eq(n, o)))
+			u.Axiom(Implies(Neq(o, NilV), Eq(n, o)))
 		}
 	}
 }
@@ -429,6 +433,7 @@ func (u *Unit) lockCheck(st *State, fr *Frame, in ssa.Instruction, addr Term, wr
 	if u.isAllocAtom(root) && st.Fresh[root.String()] && !st.Spawned {
 		return
 	}
+	u.Fun(g.muFn, []Sort{SV}, SV)
 	mu := App(g.muFn, SV, obj)
 	held := u.ghostGet(st, "held", SInt, mu)
 	what := "read"
@@ -480,6 +485,9 @@ func (u *Unit) syncCall(st *State, fr *Frame, site ssa.Instruction, name string,
 		held := u.ghostGet(st, "held", SInt, mu)
 		ord := u.siteOrdinal(site, "unlock")
 		u.Prove(st, u.obligName("unlock", fmt.Sprintf("held#%d", ord)), "lock", u.tagsOr(nil), posOf(site), "Unlock of a mutex this goroutine holds", Ge(held, IntLit(1)), nil)
+		if strings.HasPrefix(mu.Op, "fa_") {
+			u.typeInvariants(st, fr, mu, mu.Args[0], site, false)
+		}
 		u.ghostSet(st, "held", SInt, mu, Sub(held, IntLit(1)))
 		st.LocksTouched = append(st.LocksTouched, mu)
 		return true
@@ -516,6 +524,7 @@ func (u *Unit) onLock(st *State, fr *Frame, mu Term) {
 	if u.isAllocAtom(root) && st.Fresh[root.String()] && !st.Spawned {
 		return
 	}
+	defer u.typeInvariants(st, fr, mu, obj, nil, true)
 	for _, gf := range fields {
 		keys := map[string]bool{}
 		u.leafKeys(gf.typ, keys)
@@ -524,6 +533,7 @@ func (u *Unit) onLock(st *State, fr *Frame, mu Term) {
 			ks = append(ks, k)
 		}
 		sort.Strings(ks)
+		u.Fun(gf.faFn, []Sort{SV}, SV)
 		target := App(gf.faFn, SV, obj)
 		for _, k := range ks {
 			if _, ok := st.MemSort[k]; !ok {
@@ -643,4 +653,133 @@ func init() {
 	ghostStateFuncs["wg_count"] = func(e *Env, a []EVal) EVal {
 		return EVal{T: e.u.ghostGet(e.st, "wg", SInt, a[0].T)}
 	}
+}
+
+// soleCloser: `sole_closer x.f` — every close() of a channel loaded from that
+// struct field must be inside this unit (a syntactic scan of the module); then
+// interference cannot close it.
+func (u *Unit) soleClosers(st *State, fr *Frame) {
+	if u.C == nil {
+		return
+	}
+	for i, cl := range u.C.Clauses {
+		if cl.Kind != "sole_closer" {
+			continue
+		}
+		sel, ok := cl.Expr.(ESel)
+		if !ok {
+			u.specError(cl, fmt.Errorf("sole_closer needs x.field"))
+			continue
+		}
+		env := u.entryEnv(fr, st)
+		env.fr = fr
+		env.key = fmt.Sprintf("%s.sc%d", u.Name, i)
+		base, err := env.Eval(sel.X)
+		if err != nil {
+			u.specError(cl, err)
+			continue
+		}
+		chv, err := env.Eval(cl.Expr)
+		if err != nil {
+			u.specError(cl, err)
+			continue
+		}
+		st.OwnedClose = append(st.OwnedClose, chv.T)
+		// syntactic scan
+		var stT types.Type
+		if base.Ty != nil {
+			stT = base.Ty
+			if pt, ok := stT.Underlying().(*types.Pointer); ok {
+				stT = pt.Elem()
+			}
+		}
+		inside := map[*ssa.Function]bool{}
+		var mark func(f *ssa.Function)
+		mark = func(f *ssa.Function) {
+			inside[f] = true
+			for _, af := range f.AnonFuncs {
+				mark(af)
+			}
+		}
+		mark(u.Fn)
+		bad := ""
+		for _, f := range u.P.Funcs {
+			for _, b := range f.Blocks {
+				for _, in := range b.Instrs {
+					c, ok := in.(*ssa.Call)
+					if !ok {
+						continue
+					}
+					bi, ok := c.Call.Value.(*ssa.Builtin)
+					if !ok || bi.Name() != "close" {
+						continue
+					}
+					ld, ok := c.Call.Args[0].(*ssa.UnOp)
+					if !ok {
+						continue
+					}
+					fa, ok := ld.X.(*ssa.FieldAddr)
+					if !ok {
+						continue
+					}
+					ft := derefType(fa.X.Type())
+					if stT == nil || !types.Identical(ft, stT) {
+						continue
+					}
+					if ft.Underlying().(*types.Struct).Field(fa.Field).Name() != sel.Name {
+						continue
+					}
+					if !inside[f] {
+						bad = u.P.FuncNames[f]
+					}
+				}
+			}
+		}
+		goal := True
+		if bad != "" {
+			goal = False
+		}
+		u.Prove(st, u.obligName("chan-owner", sel.Name), "chan-owner", u.tagsOr(cl.Tags), u.Fn.Pos(), "only this function closes "+cl.Text+" (syntactic scan of the module)", goal, nil)
+	}
+}
+
+// typeInvariants: invariants declared in a `type` block over fields guarded by
+// a mutex are assumed when the mutex is acquired and proved when it is released.
+func (u *Unit) typeInvariants(st *State, fr *Frame, mu, obj Term, site ssa.Instruction, assume bool) {
+	owner, ok := u.P.muOwner[mu.Op]
+	if !ok {
+		return
+	}
+	ts := u.P.TypeSpecs[owner.key]
+	if ts == nil {
+		return
+	}
+	for i, cl := range ts.Clauses {
+		if cl.Kind != "invariant" {
+			continue
+		}
+		env := &Env{u: u, st: st, old: st, vars: map[string]EVal{"self": {T: obj, Ty: types.NewPointer(owner.typ)}}, pkg: owner.pkg, freshLo: u.entryFresh, assuming: assume}
+		env.key = fmt.Sprintf("%s.tinv%d", owner.key, i)
+		g, err := env.EvalBool(cl.Expr)
+		if err != nil {
+			u.specError(cl, err)
+			continue
+		}
+		if assume {
+			st.Assume(g)
+			continue
+		}
+		lbl := cl.Name
+		if lbl == "" {
+			lbl = fmt.Sprintf("t%d", i)
+		}
+		ord := u.siteOrdinal(site, "type-inv")
+		u.Prove(st, u.obligName("type-inv", fmt.Sprintf("%s.%s#%d", owner.typ.Obj().Name(), lbl, ord)), "type-inv", u.tagsOr(cl.Tags), posOf(site), "type invariant of "+owner.typ.Obj().Name()+" restored at Unlock: "+cl.Text, g, nil)
+	}
+}
+
+type muOwnerInfo struct {
+	key string
+	typ *types.Named
+	pkg *types.Package
 }
